@@ -21,7 +21,12 @@ func main() {
 	debug := flag.String("debug", "", "debug: traces:<rule>")
 	flag.Parse()
 	if strings.HasPrefix(*debug, "traces:") {
-		engine.DebugTraces(*repo, strings.TrimPrefix(*debug, "traces:"))
+		parts := strings.Split(strings.TrimPrefix(*debug, "traces:"), ":")
+		if len(parts) == 2 {
+			engine.DebugTracesKind(*repo, parts[0], parts[1])
+		} else {
+			engine.DebugTraces(*repo, parts[0])
+		}
 		return
 	}
 	if t := os.Getenv("VERIF_TIER"); t != "" && !isFlagSet("tier") {
